@@ -632,7 +632,8 @@ func verifLemmaLegacyWithoutElementMarshals(h Header) (buf []byte, err error) {
 //@   ensures empty [C06]: len(payload) == 0 ==> result0 == nil && p.Timestamp == old(p.Timestamp)
 //@   ensures timestamp_advances [C06]: len(payload) > 0 ==> int(p.Timestamp) == (int(old(p.Timestamp)) + int(samples)) % 4294967296
 //@   ensures headers [C06]: forall k :: 0 <= k && k < len(result0) ==> result0[k] != nil && result0[k].Header.Version == 2 && !result0[k].Header.Padding && result0[k].PaddingSize == 0 && result0[k].Header.PayloadType == p.PayloadType && result0[k].Header.SSRC == p.SSRC && result0[k].Header.Timestamp == old(p.Timestamp) && len(result0[k].Header.CSRC) == 0 && (result0[k].Header.Marker <==> k == len(result0) - 1)
-//@   ensures within_mtu [C06]: forall k :: 0 <= k && k < len(result0) && len(result0[k].Payload) <= int(p.MTU) - 12 ==> hdrSize(result0[k].Header) + len(result0[k].Payload) <= int(p.MTU)
+//@   ensures within_mtu [C06]: forall k :: 0 <= k && k < len(result0) - 1 && len(result0[k].Payload) <= int(p.MTU) - 12 ==> hdrSize(result0[k].Header) + len(result0[k].Payload) <= int(p.MTU)
+//@   ensures last_within_mtu [C06]: len(result0) > 0 && len(result0[len(result0) - 1].Payload) <= int(p.MTU) - 12 ==> hdrSize(result0[len(result0) - 1].Header) + len(result0[len(result0) - 1].Payload) <= int(p.MTU)
 //@   ensures no_extension_before_last [C06]: forall k :: 0 <= k && k < len(result0) - 1 ==> !result0[k].Header.Extension && len(result0[k].Header.Extensions) == 0
 //@   ensures no_send_time [C06]: len(result0) > 0 && p.extensionNumbers.AbsSendTime == 0 ==> !result0[len(result0) - 1].Header.Extension && len(result0[len(result0) - 1].Header.Extensions) == 0
 //@   ensures send_time_on_last [C06]: len(result0) > 0 && p.extensionNumbers.AbsSendTime != 0 ==> result0[len(result0) - 1].Header.Extension && len(result0[len(result0) - 1].Header.Extensions) == 1 && int(result0[len(result0) - 1].Header.Extensions[0].id) == p.extensionNumbers.AbsSendTime % 256 && len(result0[len(result0) - 1].Header.Extensions[0].payload) == 3 && fresh(result0[len(result0) - 1].Header.Extensions[0].payload)
@@ -698,7 +699,9 @@ func verifLemmaLegacyWithoutElementMarshals(h Header) (buf []byte, err error) {
 //@   requires v != nil && ctx != nil && 0 <= ctx.offset && ctx.offset <= len(ctx.payload) && len(v.ActiveSpatialLayer) <= 16
 //@   modifies v.HasResolutionAndFramerate, v.ActiveSpatialLayer[*], ctx.offset
 //@   loop 0: invariant walk [C19]: rangeindex <= len(v.ActiveSpatialLayer) - 1 && ctx.offset == old(ctx.offset) + 5 * (rangeindex + 1) && old(ctx.offset) + 5 * len(v.ActiveSpatialLayer) <= len(ctx.payload) && sameSlice(ctx.payload, old(ctx.payload)) && sameSlice(v.ActiveSpatialLayer, old(v.ActiveSpatialLayer)) && v.HasResolutionAndFramerate
+//@   loop 0: invariant values [C19]: forall k :: 0 <= k && k <= rangeindex ==> v.ActiveSpatialLayer[k].Width == be16(ctx.payload, old(ctx.offset) + 5*k) + 1 && v.ActiveSpatialLayer[k].Height == be16(ctx.payload, old(ctx.offset) + 5*k + 2) + 1 && v.ActiveSpatialLayer[k].Framerate == int(ctx.payload[old(ctx.offset) + 5*k + 4])
 //@   ensures consumed [C19]: result0 == nil ==> ctx.offset == old(ctx.offset) + 5 * len(v.ActiveSpatialLayer) && ctx.offset <= len(ctx.payload) && v.HasResolutionAndFramerate
+//@   ensures values [C19]: result0 == nil ==> forall k :: 0 <= k && k < len(v.ActiveSpatialLayer) ==> v.ActiveSpatialLayer[k].Width == be16(ctx.payload, old(ctx.offset) + 5*k) + 1 && v.ActiveSpatialLayer[k].Height == be16(ctx.payload, old(ctx.offset) + 5*k + 2) + 1 && v.ActiveSpatialLayer[k].Framerate == int(ctx.payload[old(ctx.offset) + 5*k + 4])
 //@   ensures short [C19]: result0 != nil ==> ctx.offset == old(ctx.offset) && len(ctx.payload) - ctx.offset < 5 * len(v.ActiveSpatialLayer)
 //@   ensures list_kept [C19]: sameSlice(v.ActiveSpatialLayer, old(v.ActiveSpatialLayer)) && sameSlice(ctx.payload, old(ctx.payload))
 //@ end
